@@ -36,6 +36,10 @@ pub struct ClientScript {
     pub read_gap_us: u16,
     #[serde(default)]
     pub slow_ms: u16,
+    /// the client does not hang up when its stream ends: it keeps its socket open until
+    /// Server::run has returned (or the bound has passed)
+    #[serde(default)]
+    pub linger: bool,
 }
 
 #[derive(Clone, Debug, Serialize, Deserialize)]
@@ -91,9 +95,9 @@ fn strategy(tier: Tier) -> BoxedStrategy<ShutCase> {
         1u16..u16::MAX,
         prop_oneof![2 => Just(0u16), 1 => 50u16..2000],
         // mostly tens of milliseconds; now and then longer than a second
-        prop_oneof![30 => 1u16..25, 8 => 25u16..120, 1 => 1100u16..1400],
+        (prop_oneof![30 => 1u16..25, 8 => 25u16..120, 1 => 1100u16..1400], prop_oneof![3 => Just(false), 1 => Just(true)]),
     )
-        .prop_map(|(pre_sets, kind, size, count, frac, read_gap_us, slow_ms)| ClientScript {
+        .prop_map(|(pre_sets, kind, size, count, frac, read_gap_us, (slow_ms, linger))| ClientScript {
             pre_sets,
             kind,
             size,
@@ -101,6 +105,7 @@ fn strategy(tier: Tier) -> BoxedStrategy<ShutCase> {
             frac,
             read_gap_us,
             slow_ms,
+            linger,
         });
     (
         proptest::collection::vec(script, 1..=6),
@@ -140,9 +145,21 @@ struct ClientReport {
     mid: bool,
     /// flooding client: replies are not matched against a finite request list
     flood: bool,
+    /// this (lingering) client has already announced that it finished reading
+    counted: bool,
 }
 
-fn client_thread(ci: usize, s: ClientScript, addr: String, go: Arc<Barrier>) -> ClientReport {
+fn client_thread(ci: usize, s: ClientScript, addr: String, go: Arc<Barrier>, released: Arc<std::sync::atomic::AtomicBool>, done: Arc<std::sync::atomic::AtomicUsize>) -> ClientReport {
+    // `done` counts the clients that have finished reading (a lingering client counts before it
+    // starts to linger, every other one when it returns)
+    let rep = client_thread_inner(ci, s, addr, go, released, done.clone());
+    if !rep.counted {
+        done.fetch_add(1, std::sync::atomic::Ordering::SeqCst);
+    }
+    rep
+}
+
+fn client_thread_inner(ci: usize, s: ClientScript, addr: String, go: Arc<Barrier>, released: Arc<std::sync::atomic::AtomicBool>, done: Arc<std::sync::atomic::AtomicUsize>) -> ClientReport {
     let mut rep = ClientReport {
         sent: Vec::new(),
         replies: Vec::new(),
@@ -152,6 +169,7 @@ fn client_thread(ci: usize, s: ClientScript, addr: String, go: Arc<Barrier>) -> 
         error: None,
         mid: false,
         flood: false,
+        counted: false,
     };
     let key = format!("c{}k", ci).into_bytes();
     let key2 = format!("c{}big", ci).into_bytes();
@@ -295,6 +313,15 @@ fn client_thread(ci: usize, s: ClientScript, addr: String, go: Arc<Barrier>) -> 
         }
         Err(e) => rep.error = Some(format!("malformed reply bytes: {}", e)),
     }
+    if s.linger {
+        // a passive client: it does not hang up because its stream ended
+        done.fetch_add(1, std::sync::atomic::Ordering::SeqCst);
+        rep.counted = true;
+        let t0 = Instant::now();
+        while !released.load(std::sync::atomic::Ordering::SeqCst) && t0.elapsed() < Duration::from_secs(30) {
+            std::thread::sleep(Duration::from_millis(1));
+        }
+    }
     cl.close();
     rep
 }
@@ -326,19 +353,46 @@ fn exec(c: &ShutCase, env: &Env) -> Outcome {
     };
     let addr = srv.addr();
     let go = Arc::new(Barrier::new(c.clients.len() + 1));
+    let released = Arc::new(std::sync::atomic::AtomicBool::new(false));
+    let done = Arc::new(std::sync::atomic::AtomicUsize::new(0));
+    let lingering = c.clients.iter().filter(|s| s.linger && s.kind % KINDS != 5).count();
+    if lingering > 0 {
+        out.label("clients-that-stay-connected-after-their-stream-ended");
+    }
     let mut joins = Vec::new();
     for (ci, s) in c.clients.iter().cloned().enumerate() {
-        let (a, g) = (addr.clone(), go.clone());
-        joins.push(std::thread::spawn(move || client_thread(ci, s, a, g)));
+        let (a, g, r, d) = (addr.clone(), go.clone(), released.clone(), done.clone());
+        joins.push(std::thread::spawn(move || client_thread(ci, s, a, g, r, d)));
     }
     go.wait();
     if c.delay_us > 0 {
         std::thread::sleep(Duration::from_micros(c.delay_us as u64));
     }
     srv.fire_shutdown();
+    // every client finishes its script within 12 s and closes - except the lingering ones, which
+    // keep their sockets open until run() has returned: run() must return within bounded time
+    // whatever the clients are doing
+    let returned = if lingering > 0 {
+        // until run() has returned, or 5 s after the last client finished reading
+        let mut all_done_at: Option<Instant> = None;
+        loop {
+            if srv.wait_returned(Duration::from_millis(1)) {
+                break true;
+            }
+            if all_done_at.is_none() && done.load(std::sync::atomic::Ordering::SeqCst) >= c.clients.len() {
+                all_done_at = Some(Instant::now());
+            }
+            if matches!(all_done_at, Some(t) if t.elapsed() > Duration::from_secs(5)) {
+                break false;
+            }
+        }
+    } else {
+        false
+    };
+    let gave_up = lingering > 0 && !returned;
+    released.store(true, std::sync::atomic::Ordering::SeqCst);
     let reports: Vec<ClientReport> = joins.into_iter().map(|j| j.join().expect("client thread")).collect();
-    // every client has finished its script and closed: run() must return within bounded time
-    let returned = srv.wait_returned(Duration::from_secs(10));
+    let returned = returned || (!gave_up && srv.wait_returned(Duration::from_secs(10)));
 
     let mut mid = false;
     for (ci, r) in reports.iter().enumerate() {
@@ -356,7 +410,14 @@ fn exec(c: &ShutCase, env: &Env) -> Outcome {
     if !returned {
         verdict = Some((
             "run-did-not-return".into(),
-            "10 s after every client had read to the end of its stream and closed, Server::run had not returned".into(),
+            format!(
+                "{} Server::run had not returned",
+                if lingering > 0 {
+                    format!("5 s after every client had read to the end of its stream ({} of them kept their socket open afterwards, the others closed)", lingering)
+                } else {
+                    "10 s after every client had read to the end of its stream and closed,".to_string()
+                }
+            ),
             true,
         ));
     }
@@ -551,14 +612,14 @@ pub fn prop() -> Prop<ShutCase> {
     Prop {
         id: "C16",
         level: "exploration",
-        rule: "Cases: 1-6 clients against an in-process server, each scripted into a state at the moment shutdown fires: idle after 0-2 acknowledged SETs; part of a frame sent (generated fraction); one complete SET with a value up to 300 KiB (1 MiB thorough) sent and the reply not yet read; 2-11 pipelined SETs; 12-66 pipelined GETs of a large value (up to 20 MB of replies, more than the socket buffers hold) read late and slowly; or already finished (acknowledged round trips and a clean close before the window); a client that keeps the connection saturated with batches of pipelined GETs until its stream ends; one complete GET of a large value followed by part of the next request; one complete SET whose execution on the blocking thread takes 1-120 ms, now and then 1.1-1.4 s (the server's storage is a wrapper around the real handle that sleeps before a SET of a key named slow:<ms>:..., standing for a write queued behind a merge). max_connections is 16, exactly the number of clients (the accept loop is parked waiting for a slot when shutdown fires) or one more. The shutdown signal fires a generated 0-8 ms after the clients start those sends. Every client then reads to the end of its stream and closes. Oracles: Server::run returns within 10 s after the last client closed; at the instant run returns (measured on the server's own task before anything else is dropped) no server-side socket of the server's port is still ESTABLISHED or CLOSE_WAIT in /proc/net/tcp - run waits until the connections have wound down; the server ends every stream within 12 s; each client's bytes parse with a strict reader into complete, correct replies in order followed by end of stream (a partial reply before a clean EOF is a torn reply; after a connection reset trailing bytes are not judged); after run returned, for each client the store equals the state after its first j complete commands for some j >= the number of replies it received. Non-trivial: shutdown fired while at least one client was mid-frame or mid-command; distinct = distinct hash of the case.",
+        rule: "Cases: 1-6 clients against an in-process server, each scripted into a state at the moment shutdown fires: idle after 0-2 acknowledged SETs; part of a frame sent (generated fraction); one complete SET with a value up to 300 KiB (1 MiB thorough) sent and the reply not yet read; 2-11 pipelined SETs; 12-66 pipelined GETs of a large value (up to 20 MB of replies, more than the socket buffers hold) read late and slowly; or already finished (acknowledged round trips and a clean close before the window); a client that keeps the connection saturated with batches of pipelined GETs until its stream ends; one complete GET of a large value followed by part of the next request; one complete SET whose execution on the blocking thread takes 1-120 ms, now and then 1.1-1.4 s (the server's storage is a wrapper around the real handle that sleeps before a SET of a key named slow:<ms>:..., standing for a write queued behind a merge). max_connections is 16, exactly the number of clients (the accept loop is parked waiting for a slot when shutdown fires) or one more. The shutdown signal fires a generated 0-8 ms after the clients start those sends. Every client then reads to the end of its stream and closes; a quarter of the clients are passive and keep their socket open after their stream has ended, until run has returned (which must happen within 5 s after the last client finished reading). Oracles: Server::run returns within 10 s after the last client closed; at the instant run returns (measured on the server's own task before anything else is dropped) no server-side socket of the server's port is still ESTABLISHED or CLOSE_WAIT in /proc/net/tcp - run waits until the connections have wound down; the server ends every stream within 12 s; each client's bytes parse with a strict reader into complete, correct replies in order followed by end of stream (a partial reply before a clean EOF is a torn reply; after a connection reset trailing bytes are not judged); after run returned, for each client the store equals the state after its first j complete commands for some j >= the number of replies it received. Non-trivial: shutdown fired while at least one client was mid-frame or mid-command; distinct = distinct hash of the case.",
         assumptions: &[
-            "a client that never reads and never closes is not generated: run() is required to return once connections have wound down",
+            "a client that never reads is not generated (the server may be parked in a write to it); a client that has read everything and simply stays connected is: run() must return whatever the clients are doing",
             "end of stream is accepted as EOF or connection reset (a server closing a socket with unread pipelined requests sends RST, which may purge data the client had not read yet), except for clients that were idle at the shutdown: nothing of theirs is unread, so their stream must end with EOF",
             "missed liveness bounds count as violations only after a fast calibration round trip on an idle second server",
         ],
         needs_shim: false,
-        budget: |t| t.pick(12000, 60000),
+        budget: |t| t.pick(9600, 60000),
         shards: |_| 16,
         strategy,
         exec,
